@@ -43,6 +43,17 @@ static ledger_stats_t st;
 static uint64_t fail_at = 0;
 static int mode = LG_DEFAULT;
 
+/* triage aid: with VERIF_LEDGER_FORWARD set, a foreign/double free is forwarded to the real allocator so that
+ * AddressSanitizer reports it with both stacks */
+static void foreign(void *p)
+{
+    st.foreign_free++;
+    if (getenv("VERIF_LEDGER_FORWARD") != NULL)
+    {
+        __real_free(p);
+    }
+}
+
 static size_t hash_ptr(uintptr_t p)
 {
     uint64_t x = (uint64_t)p;
@@ -173,7 +184,7 @@ void ledger_free(void *p)
     e = table_find(p);
     if (e == NULL)
     {
-        st.foreign_free++;
+        foreign(p);
         return; /* not forwarded */
     }
     if (e->side != SIDE_HOOK)
@@ -267,7 +278,7 @@ void __wrap_free(void *p)
     e = table_find(p);
     if (e == NULL)
     {
-        st.foreign_free++;
+        foreign(p);
         return;
     }
     if (e->side != SIDE_LIBC)
